@@ -639,7 +639,7 @@ func cmdCheck(args []string) int {
 	var samples []map[string]interface{}
 	for _, be := range want {
 		o := pr.Obs[be.Name]
-		if o == nil && be.Auto && e.funcs[be.Func] != nil {
+		if o == nil && (be.Auto || isSiteObligation(be.Name)) && e.funcs[be.Func] != nil {
 			// the code site this automatic obligation was generated from is gone: nothing left to prove
 			vanished++
 			continue
